@@ -43,6 +43,9 @@ func c18Gen(class string, seed uint64, tier string) *vfScenario {
 		}
 		sc.Ops = vfGenProgram(rng, int(sc.Cfg["kind"]), 1+rng.IntN(40))
 		sc.Cfg["sites"] = int64(1 + rng.IntN(3))
+		if class == "os-prog" && rng.IntN(4) == 0 {
+			sc.Cfg["readonly"] = 1 // refusals take another path through the worker
+		}
 	case "deep":
 		// one READ whose completion the scheduler may hold back, and far more than a hundred requests pipelined behind
 		// it: their replies (and the buffers they occupy) pile up in the packet manager
@@ -70,6 +73,9 @@ func c18Gen(class string, seed uint64, tier string) *vfScenario {
 		sc = c14Gen(map[string]string{"os-burst": "os", "rs-burst": "rs", "rs-burst-park": "rs-park"}[class], seed, tier)
 	}
 	delete(sc.Cfg, "alloc")
+	if rng.IntN(2) == 0 {
+		sc.Cfg["idbase"] = int64(1 + rng.IntN(4))
+	}
 	if rng.IntN(4) == 0 {
 		// another session of the same process (its own server, allocator on) has served a few requests
 		// and sits idle while the session under test runs
